@@ -19,7 +19,8 @@ EXTENDS Integers, Sequences, FiniteSets, TLC, Json
 
 Trace == ndJsonDeserialize("trace.ndjson")
 
-CONSTANT TolerateLLTD0   \* the recorded finding (Low-Latency stream whose segments are all shorter than 0.5 s) is not reported again
+CONSTANT TolerateForeignAnchor   \* TRUE: the recorded finding (a unit of an audio rendition is dated with the date-time of whichever
+                                 \* segment the LEADING stream processed last, not with that of its own segment) is not reported again
 
 VARIABLES l, cfg, wmax, last, ndel, f, why, st
 
@@ -85,7 +86,7 @@ TraceData ==
                 <<"C09_NeverNegative", e.pts >= 0 /\ e.dts >= 0>>,
                 <<"C09_DTS", e.dd = 0>>,
                 <<"C09_PTS", e.dp = 0>>,
-                <<"C09_AbsoluteTime", e.da = 0>>,
+                <<"C09_AbsoluteTime", e.da = 0 \/ (TolerateForeignAnchor /\ e.foreign = 1)>>,
                 <<"C09_NoCallbackAfterEnd", ~st.waited>>
               >>)
      IN /\ f' = r[1] /\ why' = r[2]
@@ -98,7 +99,7 @@ TraceData ==
 TraceWait ==
   /\ l <= Len(Trace) /\ Trace[l].ev = "wait"
   /\ LET e == Trace[l]
-         td0 == TolerateLLTD0 /\ e.lltd0 = 1
+         td0 == FALSE
          r == FailAll(f, why, <<
                 <<"C09_ClientKeptUp", td0 \/ (e.got = 1 /\ e.alive = 0 /\ e.errc \in {"terminated", "missing"})>>,
                 <<"C09_EveryTrackDelivered", td0 \/ (\A t \in 1..NT : e.expd[t] = 1 => ndel[t] > 0)>>
